@@ -155,6 +155,8 @@ pub fn run(ctx: &mut Ctx, _replay: Option<&[String]>) {
                 Some(p)
             } else { None };
             let f32mode = rng.chance(1, 3);
+            // a third of the handles get BOTH entry points, in a random order (state shared between decode_f32 and decode_f64 on one handle)
+            let mixed = rng.chance(1, 3);
             let out_len = if rng.chance(1, 2) { n - h.num_rows().min(n) } else { rng.range(0, n) };
             let ncalls = rng.range(1, 5);
             let (Some(a), Some(nm), Some(ps)) = (cs(&h.alist()), cs(&imp.to_string()), cs(&pattern_str(&pattern))) else { continue };
@@ -170,7 +172,8 @@ pub fn run(ctx: &mut Ctx, _replay: Option<&[String]>) {
                     Some(p) => { let b = n / p.len(); full.iter().enumerate().filter(|(i, _)| p[i / b]).map(|(_, &x)| x).collect() }
                     None => full.clone(),
                 };
-                if f32mode { sent = sent.iter().map(|&x| (x as f32) as f64).collect(); }
+                let f32call = if mixed { rng.chance(1, 2) } else { f32mode };
+                if f32call { sent = sent.iter().map(|&x| (x as f32) as f64).collect(); }
                 let limit = *rng.pick(&[0u32, 1, 2, 5, 20]);
                 // the Rust decoder first, on the depunctured LLRs (f32 input behaving as its f64 widening).  If IT panics (the float A-Min*
                 // decoders do when f32 messages overflow to NaN, DESIGN.md section 4 (9)) there is nothing to compare with, and the same
@@ -184,7 +187,7 @@ pub fn run(ctx: &mut Ctx, _replay: Option<&[String]>) {
                 let Ok(rr) = rr else { ctx.tag("rust-decoder-panicked-c-call-skipped"); break; };
                 let mut out = vec![7u8; out_len];
                 let ret = unsafe {
-                    if f32mode {
+                    if f32call {
                         let s32: Vec<f32> = sent.iter().map(|&x| x as f32).collect();
                         ldpc_toolbox_decoder_decode_f32(handle, out.as_mut_ptr(), out_len, s32.as_ptr(), s32.len(), limit)
                     } else {
@@ -198,10 +201,10 @@ pub fn run(ctx: &mut Ctx, _replay: Option<&[String]>) {
                 calls_s.push(fmt_call(limit as usize, &sent));
             }
             unsafe { ldpc_toolbox_decoder_dtor(handle) };
-            let input = format!("c19 dec {} {} {} {} {} {}", if f32mode { "f32" } else { "f64" }, imp, sm(&SparseMatrix::from_alist(&h.alist()).unwrap()),
+            let input = format!("c19 dec {} {} {} {} {} {}", if mixed { "mix" } else if f32mode { "f32" } else { "f64" }, imp, sm(&SparseMatrix::from_alist(&h.alist()).unwrap()),
                 pattern.as_ref().map(|p| bools(p.iter().copied())).unwrap_or("-".into()), out_len, calls_s.join(" "));
             ctx.emit(&input, &format!("{} | {}", cres.join(" "), rres.join(" ")), ncalls >= 2,
-                &[fam, if f32mode { "decode-f32" } else { "decode-f64" }, if pattern.is_some() { "with-puncturing" } else { "no-puncturing" }]);
+                &[fam, if mixed { "decode-f32-and-f64-on-one-handle" } else if f32mode { "decode-f32" } else { "decode-f64" }, if pattern.is_some() { "with-puncturing" } else { "no-puncturing" }]);
         }
     }
     // ---------------------------------------------------------------- encode
